@@ -240,6 +240,7 @@ def parse_module(text):
             while lines[i] != '}':
                 body.append(lines[i]); i += 1
             i += 1
+            hdr = re.sub(r'\bcomdat(\(\$[^)]*\))?', '', hdr)
             p = P(tokenize(strip_meta(hdr.rstrip(' {')))); p.next()
             while p.peek()[0] == 'word' and p.peek()[1] in LINKAGE: p.next()
             skip_attrs(p)
